@@ -108,6 +108,11 @@ func c19BPMScenarios() []*core.Scenario {
 			}
 		}
 	}
+	// a committing session next to an eviction: append a record and force the log (what Commit does)
+	commitLike := func(bpm *buffer.BufferPoolManager, pids []types.PageID) {
+		c19Log.AppendLogRecord(recovery.NewLogRecordTxn(types.TxnID(7), types.LSN(-1), recovery.BEGIN))
+		c19Log.Flush()
+	}
 	type sc struct {
 		name   string
 		frames int
@@ -121,6 +126,8 @@ func c19BPMScenarios() []*core.Scenario {
 		{"dirty-unpin(p0)||flush-all;fetch(p1)", 1, []body{fetchDirty(0), seq(flushAll, fetchClean(1))}},
 		{"dirty-unpin(p0)||dealloc(p0);new-page", 2, []body{fetchDirty(0), seq(dealloc(0), newPage)}},
 		{"new-page||new-page", 2, []body{newPage, newPage}},
+		{"log/dirty-unpin(p0);fetch(p1)||append+force-log", 1, []body{seq(fetchDirty(0), fetchClean(1)), commitLike}},
+		{"log/new-page||append+force-log", 1, []body{seq(fetchDirty(0), newPage), commitLike}},
 		{"fetch(p0)||fetch(p0)", 1, []body{fetchDirty(0), fetchClean(0)}},
 	}
 	var out []*core.Scenario
@@ -134,7 +141,20 @@ func c19BPMScenarios() []*core.Scenario {
 					ldm := disk.NewVirtualDiskManagerImpl("c17log.db")
 					c17Log = recovery.NewLogManager(&ldm)
 				}
-				bpm := buffer.NewBufferPoolManager(uint32(x.frames), dm, c17Log)
+				lg := c17Log
+				if strings.HasPrefix(x.name, "log/") {
+					// these two run with logging switched on (one shared log manager: it is 1 MB)
+					if c19Log == nil {
+						ldm := disk.NewVirtualDiskManagerImpl("c19log.db")
+						c19Log = recovery.NewLogManager(&ldm)
+						c19Log.ActivateLogging()
+					}
+					lg = c19Log
+					// the log has been forced before: evicted pages (page LSN 0) are covered by the durable log
+					c19Log.AppendLogRecord(recovery.NewLogRecordTxn(types.TxnID(1), types.LSN(-1), recovery.BEGIN))
+					c19Log.Flush()
+				}
+				bpm := buffer.NewBufferPoolManager(uint32(x.frames), dm, lg)
 				var pids []types.PageID
 				for i := 0; i < 3; i++ {
 					pg := bpm.NewPage()
@@ -156,6 +176,8 @@ func c19BPMScenarios() []*core.Scenario {
 	}
 	return out
 }
+
+var c19Log *recovery.LogManager
 
 var raceSiteRe = regexp.MustCompile(`^\s+(\S+)\(.*\)$|^\s+(\S+)\(\)$`)
 
@@ -352,6 +374,8 @@ func c19Scenarios(thorough bool) []*core.Scenario {
 		scs = append(scs, s.build(1))
 	}
 	scs = append(scs, c19BPMScenarios()...)
+	// concurrently committing writers, also on a 10-frame pool (eviction of dirty pages next to commits)
+	scs = append(scs, c08ConcScenarios(thorough)...)
 	for _, s := range c17Scenarios(false) {
 		if strings.HasPrefix(s.Name, "skip:") || thorough {
 			scs = append(scs, s.build(1))
